@@ -185,7 +185,7 @@ class NodeAnd:
 
 class NodeAssign:
     def __init__(self, identifier, expression, pos):
-        if identifier.startswith("checkerlang_"):
+        if identifier.startswith("checkerlang_") or identifier == "NULL":
             raise CklSyntaxError(
                 f"Cannot assign to system variable {identifier}", pos
             )
@@ -216,7 +216,7 @@ class NodeAssign:
 class NodeAssignDestructuring:
     def __init__(self, identifiers, expression, pos):
         for identifier in identifiers:
-            if identifier.startswith("checkerlang_"):
+            if identifier.startswith("checkerlang_") or identifier == "NULL":
                 raise CklSyntaxError(
                     f"Cannot assign to system variable {identifier}", pos
                 )
